@@ -233,8 +233,11 @@ pub fn start_pos(ent: &[u16], corpus: &Corpus, mix: StartMix) -> Option<(Pos, St
         }
         2 => synth_pos(&mut e).map(|p| (p, "synth".into())),
         _ => {
-            if e.pick(5) == 0 {
+            let k = e.pick(6);
+            if k == 0 {
                 dense_slider_pos(&mut e).map(|p| (p, "pattern:dense-slider".to_string()))
+            } else if k == 1 {
+                discovery_pos(&mut e).map(|p| (p, "pattern:discovery-setup".to_string()))
             } else {
                 pattern_pos(&mut e, corpus)
             }
@@ -475,6 +478,64 @@ pub fn dense_slider_pos(e: &mut Entropy) -> Option<Pos> {
         if p.attackers_count(k, !p.wtm) > 2 {
             return None;
         }
+    }
+    Some(p)
+}
+
+/// Discovered-check set-up: the side to move has a slider aimed at the enemy king with exactly
+/// one of its own pieces in between (every move of that piece off the line uncovers a check,
+/// some of them double checks), plus filler material; the mover is usually behind in material.
+pub fn discovery_pos(e: &mut Entropy) -> Option<Pos> {
+    let mut p = Pos::empty();
+    let diag = e.pick(2) == 0;
+    let dirs: [(i32, i32); 4] = if diag { [(1, 1), (-1, 1), (-1, -1), (1, -1)] } else { [(1, 0), (0, 1), (-1, 0), (0, -1)] };
+    let bk = e.pick(64);
+    let (df, dr) = dirs[e.pick(4)];
+    // squares on the ray from the king
+    let mut ray = vec![];
+    let (mut f, mut r) = (o::file_of(bk) + df, o::rank_of(bk) + dr);
+    while (0..8).contains(&f) && (0..8).contains(&r) {
+        ray.push(o::sq(f, r));
+        f += df;
+        r += dr;
+    }
+    if ray.len() < 2 {
+        return None;
+    }
+    let front_i = e.pick(ray.len() - 1);
+    let back_i = front_i + 1 + e.pick(ray.len() - front_i - 1);
+    p.sq[bk] = o::mk(false, o::K);
+    let slider = if e.pick(3) == 0 { o::Q } else if diag { o::B } else { o::R };
+    p.sq[ray[back_i]] = o::mk(true, slider);
+    // the front piece moves on other lines than the slider's
+    let front = if diag { [o::N, o::R, o::N][e.pick(3)] } else { [o::N, o::B, o::N][e.pick(3)] };
+    p.sq[ray[front_i]] = o::mk(true, front);
+    let mut reserved = [false; 64];
+    for &q in &ray[..=back_i] {
+        reserved[q] = true;
+    }
+    let free: Vec<usize> = (0..64).filter(|&q| p.sq[q] == 0 && !reserved[q] && cheb(q, bk) > 1).collect();
+    if free.is_empty() {
+        return None;
+    }
+    p.sq[free[e.pick(free.len())]] = o::mk(true, o::K);
+    // filler: the defender gets more material than the attacker
+    for (white, n) in [(false, 2 + e.pick(4)), (true, e.pick(3))] {
+        for _ in 0..n {
+            let t = [o::P, o::P, o::N, o::B, o::R, o::Q, o::Q][e.pick(7)];
+            let c: Vec<usize> = (0..64).filter(|&q| p.sq[q] == 0 && !reserved[q] && (t != o::P || (1..=6).contains(&o::rank_of(q)))).collect();
+            if c.is_empty() {
+                break;
+            }
+            p.sq[c[e.pick(c.len())]] = o::mk(white, t);
+        }
+    }
+    p.wtm = true;
+    p.fmn = 20 + e.pick(40) as u32;
+    let mut p = if e.pick(2) == 1 { p.mirror() } else { p };
+    p.hmc = e.pick(30) as u32;
+    if p.is_valid_start().is_err() || p.in_check(p.wtm) {
+        return None;
     }
     Some(p)
 }
